@@ -606,6 +606,7 @@ def rule_r8_concrete(ctx: Ctx) -> None:
         return o, sp, 8
 
     u8, u3, u64, u17 = uint(8), uint(3), uint(64), uint(17)
+    b1 = (mk("bool", "_primitive.BooleanType"), frozenset({1}), 1)
     inner = struct("Inner {uint8[<=2]}", [varr("uint8[<=2]", u8, 2)])
     outer = struct("Outer union {Inner, uint64}", [inner, u64], union=True)
     user = struct("User {Inner, uint8}", [inner, u8])
@@ -642,8 +643,41 @@ def rule_r8_concrete(ctx: Ctx) -> None:
                 n += 1
                 if got != w and len(bad) < 6:
                     bad.append({"type": label, "query": q, "order": order_name, "found": sorted(got) if isinstance(got, frozenset) else got, "Specification": sorted(w) if isinstance(w, frozenset) else w})
+    # lengths beyond 2**53 bits (capacities up to 2**56 elements): only the analytic answers can be asked; the reference keeps
+    # (min, max) through the same layout rules in exact integer arithmetic
+    def padv(x: int, a: int) -> int:
+        return -(-x // a) * a
+
+    bigs: List[Dict[str, Any]] = []
+    for cap, el_bits in ((2**56, 8), (2**53 + 1, 8), (2**50 + 3, 24)):
+        el = uint(el_bits)
+        arr = mk("uint%d[<=%d]" % (el_bits, cap), "_array.VariableLengthArrayType", el[0], cap)
+        a_min, a_max = prefix(cap), prefix(cap) + el_bits * cap
+        f1, f2, f3 = mk("field", "_attribute.Field", u3[0], "c"), mk("field", "_attribute.Field", arr, "a"), mk("field", "_attribute.Field", u17[0], "d")
+        serial[0] += 1
+        st_big = mk("structure", "_composite.StructureType", name="ns.Big%d" % serial[0], version=_version(1, 0), attributes=[f1, f2, f3], deprecated=False, fixed_port_id=None, source_file_path=APath("/r/ns/Big%d.1.0.dsdl" % serial[0]), has_parent_service=False, doc="")
+        # {uint3 c; uint[<=cap] a; uint17 d}: array alignment is the element's (1), so no padding before it; final padding to 8
+        s_min, s_max = padv(3 + a_min + 17, 8), padv(3 + a_max + 17, 8)
+        bigs.append({"label": "uint%d[<=%d]" % (el_bits, cap), "obj": arr, "min": a_min, "max": a_max, "extent": None})
+        bigs.append({"label": "{uint3; uint%d[<=%d]; uint17}" % (el_bits, cap), "obj": st_big, "min": s_min, "max": s_max, "extent": s_max})
+        serial[0] += 1
+        inner_big = st_big
+        outer = mk("structure", "_composite.StructureType", name="ns.Big%d" % serial[0], version=_version(1, 0), attributes=[mk("field", "_attribute.Field", b1[0], "k"), mk("field", "_attribute.Field", inner_big, "s"), mk("field", "_attribute.Field", b1[0], "t")], deprecated=False, fixed_port_id=None, source_file_path=APath("/r/ns/Big%d.1.0.dsdl" % serial[0]), has_parent_service=False, doc="")
+        o_min, o_max = padv(padv(1, 8) + s_min + 1, 8), padv(padv(1, 8) + s_max + 1, 8)
+        bigs.append({"label": "{bool; {uint3; uint%d[<=%d]; uint17}; bool}" % (el_bits, cap), "obj": outer, "min": o_min, "max": o_max, "extent": o_max})
+    for bg in bigs:
+        want_b = {"x.bit_length_set.min": bg["min"], "x.bit_length_set.max": bg["max"], "x.bit_length_set.is_aligned_at(8)": bg["extent"] is not None or None}
+        if bg["extent"] is not None:
+            want_b["x.extent"] = bg["extent"]
+        for q, w in want_b.items():
+            if w is None:
+                continue
+            got = ask(bg["obj"], q)
+            n += 1
+            if got != w and len(bad) < 6:
+                bad.append({"type": bg["label"], "query": q, "found": got, "Specification": w})
     ctx.count(n)
-    ctx.check(not bad, "_serializable.* x _bit_length_set", "%d concrete types x %d queries x 3 passes" % (len(world), 7 + len(divisors)), "every type's layout is the Specification's, before and after the types around it have been inspected", "pydsdl/_serializable", bad[:4])
+    ctx.check(not bad, "_serializable.* x _bit_length_set", "%d concrete types x %d queries x 3 passes; %d types longer than 2**53 bits (analytic queries)" % (len(world), 7 + len(divisors), len(bigs)), "every type's layout is the Specification's, before and after the types around it have been inspected", "pydsdl/_serializable", bad[:4])
 
 
 def run(ctx: Ctx) -> None:
